@@ -652,6 +652,15 @@ func parseDateParts(dateString string, isEndOfRange bool) Date {
 		}
 	}
 
+	// A word that is not a month name must not be silently dropped.
+	if monthName != "" && month == 0 {
+		return Date{
+			IsEndOfRange: isEndOfRange,
+			Constraint:   DateConstraintFromString(parts[constraintPos]),
+			ParseError:   errors.New("the month is unknown"),
+		}
+	}
+
 	return Date{
 		Day:          day,
 		Month:        month,
